@@ -15,7 +15,7 @@ from common import run_main, hexs, unhexs
 import cmdgen
 
 LEVEL = 'proof'
-MODULES = ['C15', 'C15b']
+MODULES = ['C15', 'C15b', 'C15c']
 
 
 def model_struct(m):
@@ -96,6 +96,33 @@ def roundtrip(argv, with_impedance=True):
     return None, True
 
 
+def transforms_tie(d, argv):
+    """the transformation list of the re-read model vs the Lean `readTransforms` applied to the list the first model
+    wrote (its `geo.transforms` in application order)"""
+    from common import f2b
+    r = run_main(argv, want_mininec=True)
+    m = r['m']
+    if m is None or not m.geo.transforms:
+        return None
+    zen, azi = angles(argv)
+    m2 = run_main(shlex.split(m.as_cmdline(azi=azi, zen=zen)), want_mininec=True)['m']
+    if m2 is None:
+        return None
+    T = list(m.geo.transforms)
+    toks = ['geom readtr', len(T)]
+    for key, kind, vec, tag in T:
+        toks += [f2b(float(key)), 'r' if kind == 'rotate' else 't', -1 if tag is None else int(tag)]
+    order = [int(x) for x in d.ask(*toks).split()]
+    want = [T[i] for i in order]
+    got = list(m2.geo.transforms)
+    same = len(want) == len(got) and all(
+        w[1] == g[1] and w[3] == g[3] and near(float(w[0]), float(g[0]), 1e-9) and near([float(x) for x in w[2]], [float(x) for x in g[2]], 1e-9)
+        for w, g in zip(want, got))
+    if not same:
+        return 'transformations of the re-read model %r, model %r' % ([(g[0], g[1], g[3]) for g in got], [(w[0], w[1], w[3]) for w in want])
+    return None
+
+
 def replay(rp):
     if 'argv' not in rp:
         print('replay: nothing to execute:', rp.get('kind'))
@@ -143,7 +170,7 @@ def run(ck):
         if bad:
             viol.append(dict(kind='roundtrip', argv=argv, observed=bad))
             continue
-        why = c15model.compare(d, argv)
+        why = c15model.compare(d, argv) or transforms_tie(d, argv)
         if why:
             dis.append(dict(argv=argv, why=why))
     ck.stats['disagreements'] = len(dis)
